@@ -76,6 +76,22 @@ type vScenario struct {
 	CleanTwice bool             ` + "`json:\"clean_twice\"`" + `
 	Roots     []string          ` + "`json:\"roots\"`" + `
 	Probe     string            ` + "`json:\"probe,omitempty\"`" + `
+	CleanOptsN  int             ` + "`json:\"clean_opts_n,omitempty\"`" + `
+	CleanBefore bool            ` + "`json:\"clean_before,omitempty\"`" + `
+}
+
+// vclean calls snaps.Clean the way the scenario asks for: without options, with one
+// CleanOpts value, or with the same value several times (the parameter is variadic).
+func vclean(m *testing.M) {
+	if !(vscn.CleanOpts || vscn.CleanSort) {
+		snaps.Clean(m)
+		return
+	}
+	opts := []snaps.CleanOpts{{Sort: vscn.CleanSort}}
+	for len(opts) < vscn.CleanOptsN {
+		opts = append(opts, snaps.CleanOpts{Sort: vscn.CleanSort})
+	}
+	snaps.Clean(m, opts...)
 }
 
 var (
@@ -280,6 +296,25 @@ func TestMain(m *testing.M) {
 	}
 	wd, _ := os.Getwd()
 	vlog(map[string]any{"ev": "proc", "args": os.Args, "cwd": wd})
+	if vscn.CleanBefore {
+		// Clean is also called BEFORE the tests run (a TestMain that reports first): nothing is
+		// registered yet, everything is listed; in a mode that may not delete this is harmless
+		// and must not change what the calls and the final Clean do
+		old := os.Stdout
+		f0, _ := os.Create(os.Getenv("VERIF_OUTDIR") + "/clean0.out")
+		os.Stdout = f0
+		func() {
+			defer func() {
+				if r := recover(); r != nil {
+					vlog(map[string]any{"ev": "clean-panic", "text": fmt.Sprint(r)})
+				}
+			}()
+			vclean(m)
+		}()
+		f0.Close()
+		os.Stdout = old
+		vlog(map[string]any{"ev": "clean-before-done"})
+	}
 	code := m.Run()
 	vlog(map[string]any{"ev": "run-done", "code": code})
 	if !vscn.NoClean {
@@ -293,11 +328,7 @@ func TestMain(m *testing.M) {
 					vlog(map[string]any{"ev": "clean-panic", "text": fmt.Sprint(r)})
 				}
 			}()
-			if vscn.CleanOpts || vscn.CleanSort {
-				snaps.Clean(m, snaps.CleanOpts{Sort: vscn.CleanSort})
-			} else {
-				snaps.Clean(m)
-			}
+			vclean(m)
 		}()
 		f.Close()
 		if vscn.CleanTwice {
@@ -310,11 +341,7 @@ func TestMain(m *testing.M) {
 						vlog(map[string]any{"ev": "clean-panic", "text": fmt.Sprint(r)})
 					}
 				}()
-				if vscn.CleanOpts || vscn.CleanSort {
-					snaps.Clean(m, snaps.CleanOpts{Sort: vscn.CleanSort})
-				} else {
-					snaps.Clean(m)
-				}
+				vclean(m)
 			}()
 			f2.Close()
 		}
